@@ -11,6 +11,7 @@ import (
 	"time"
 
 	"example.com/scion-time/core/client"
+	"example.com/scion-time/core/measurements"
 	"example.com/scion-time/core/server"
 	"example.com/scion-time/net/ntp"
 	"example.com/scion-time/net/ntske"
@@ -146,14 +147,26 @@ func (w *ipWorld) measureIP(c *client.IPClient, timeout time.Duration) (time.Tim
 // recFilter records the four timestamps the client combines and returns the raw offset.
 type recFilter struct {
 	calls  [][4]time.Time
+	outs   []time.Duration // what Do returned, call by call
 	resets int
+	inner  measurements.Filter // if set: the wired filter this one records for and passes through to
 }
 
 func (f *recFilter) Do(t0, t1, t2, t3 time.Time) time.Duration {
 	f.calls = append(f.calls, [4]time.Time{t0, t1, t2, t3})
-	return ntp.ClockOffset(t0, t1, t2, t3)
+	out := ntp.ClockOffset(t0, t1, t2, t3)
+	if f.inner != nil {
+		out = f.inner.Do(t0, t1, t2, t3)
+	}
+	f.outs = append(f.outs, out)
+	return out
 }
-func (f *recFilter) Reset() { f.resets++ }
+func (f *recFilter) Reset() {
+	f.resets++
+	if f.inner != nil {
+		f.inner.Reset()
+	}
+}
 
 func decodeNTP(b []byte) (ntp.Packet, bool) {
 	var p ntp.Packet
